@@ -75,6 +75,53 @@ def gen(tier, seed):
                        'kind': kind}
 
 
+def special_dists(lat, az, a, invf):
+    """distances at which the leading periodic term of the direct series vanishes exactly: 2 sigma1 + sigma = 90 deg (mod 180).
+    Computed with the textbook series (inputs only - the verdict is still the exact geodesic): an iteration that stops 'because the
+    correction is zero' is wrong there, the neglected second-order term being up to 2 m"""
+    f = 1.0 / invf
+    b = a * (1.0 - f)
+    u1 = math.atan((1.0 - f) * math.tan(math.radians(lat)))
+    al = math.radians(az)
+    s1 = math.atan2(math.tan(u1), math.cos(al))
+    sin_alpha = math.cos(u1) * math.sin(al)
+    cos2a = 1.0 - sin_alpha * sin_alpha
+    u2 = cos2a * (a * a - b * b) / (b * b)
+    A = 1 + u2 / 16384 * (4096 + u2 * (-768 + u2 * (320 - 175 * u2)))
+    B = u2 / 1024 * (256 + u2 * (-128 + u2 * (74 - 47 * u2)))
+    out = []
+    for k in range(-2, 4):
+        sg = math.pi / 2 - 2 * s1 + k * math.pi
+        if sg <= 1e-3:
+            continue
+        c2m = math.cos(2 * s1 + sg)
+        ds = B * math.sin(sg) * (c2m + B / 4 * (math.cos(sg) * (-1 + 2 * c2m * c2m) - B / 6 * c2m * (-3 + 4 * math.sin(sg) ** 2) * (-3 + 4 * c2m * c2m)))
+        s = b * A * (sg - ds)
+        if 1.0 < s <= 2.0e7:
+            out += [s, s + 1e-3, s - 2e-3]
+    return out
+
+
+def gen_bands(tier, seed):
+    """(a) near-equatorial long lines: start latitudes in decade / 1-2-5 steps below a degree, azimuths at and near east / west;
+    (b) distances at which the leading periodic term of the series vanishes"""
+    ells = ['grs80', 'intl24', 'g64_320'] if tier == 'quick' else cfg.G8
+    small = [1e-6, 1e-4, 1e-3, 0.005, 0.01, 0.015, 0.02, 0.03, 0.05, 0.1, 0.3]
+    for ell in ells:
+        for la in small:
+            for sg in (1, -1):
+                yield {'ell': ell, 'lat': sg * la, 'lon': 10.0, 'az': [90.0, 89.99, 90.02, 270.0, 269.985, 60.0], 'dist': [1e5, 4e6, 1e7, 1.9e7], 'kind': 'float'}
+        for la in (0.0, 0.0, 0.0):
+            pass
+        yield {'ell': ell, 'lat': 0.0, 'lon': 10.0, 'az': [89.99, 89.985, 89.98, 90.015, 270.02], 'dist': [4e6, 1e7, 1.9e7], 'kind': 'float'}
+        a, invf = ELL_AF[ell]
+        for la in (25.0, -40.0, 60.0, 5.0, -75.0):
+            for az in (40.0, 130.0, 250.0, 315.0, 10.0):
+                ds = special_dists(la, az, a, invf)
+                if ds:
+                    yield {'ell': ell, 'lat': la, 'lon': 10.0, 'az': [az], 'dist': ds, 'kind': 'float'}
+
+
 def angdiff(a, b):
     return abs((a - b + 180.0) % 360.0 - 180.0)
 
@@ -189,6 +236,7 @@ from gpmc import interp as _ip
 
 SUBCHECKS = [
     Sub('direct', gen, ev, chunk=4, floor=1000, envs=6),
+    Sub('bands', gen_bands, ev, chunk=4, floor=300),
     Sub('mp', gen_mp, ev_mp, chunk=2, floor=100),
     Sub('threads', _tg, _te, chunk=1, floor=3, poison=False, fresh=True, timeout=3600),
     Sub('callforms', *_cf.make('C04', 'geodesy'), chunk=1, floor=1, guard=True),
